@@ -483,7 +483,7 @@ def search(run: Run):
 def main():
     run = Run(
         PID,
-        ["RV.Props.C14", "RV.Props.C14Real"],
+        ["RV.Props.C14", "RV.Props.C14Real", "RV.Bridge.Geometry", "RV.Bridge.Sensors"],
         ["RV/Model/Visibility.lean"],
         "Lean 4 theorems (ordered-field algebra for line of sight = segment test, dot-product invariance of the cone, turn-invariance "
         "of the rectangular window, mask case analysis; real analysis for the arcsin/arccos forms) + differential correspondence "
